@@ -29,9 +29,32 @@ def find_grad_validators(index) -> dict:
                 from .index import FunctionInfo
 
                 if isinstance(callee, FunctionInfo):
-                    for r in ast.walk(callee.node):
-                        if isinstance(r, ast.Return) and r.value is not None:
-                            out |= attrs_of(r.value, callee, depth + 1)
+                    for v in returned_exprs(callee.node):
+                        out |= attrs_of(v, callee, depth + 1)
+        return out
+
+    def returned_exprs(fn):
+        """Expressions a function may return, following locals assigned once or several times (`r = e; return r`)."""
+        out, seen = [], set()
+        work = [r.value for r in ast.walk(fn) if isinstance(r, ast.Return) and r.value is not None]
+        while work:
+            e = work.pop()
+            if isinstance(e, ast.Name):
+                if e.id in seen:
+                    continue
+                seen.add(e.id)
+                for a in ast.walk(fn):
+                    if isinstance(a, ast.Assign) and any(isinstance(t, ast.Name) and t.id == e.id for t in a.targets):
+                        work.append(a.value)
+                    elif isinstance(a, (ast.AnnAssign, ast.AugAssign)) and isinstance(a.target, ast.Name) and a.target.id == e.id and a.value is not None:
+                        work.append(a.value)
+            else:
+                out.append(e)
+                # names used inside a returned expression may themselves be locals holding part of the predicate
+                for n in ast.walk(e):
+                    if isinstance(n, ast.Name) and isinstance(n.ctx, ast.Load) and n.id not in seen and any(
+                            isinstance(a, ast.Assign) and any(isinstance(t, ast.Name) and t.id == n.id for t in a.targets) for a in ast.walk(fn)):
+                        work.append(n)
         return out
 
     found = {}
